@@ -550,7 +550,7 @@ def run_property(prop, tier, jobs, assumptions, level_text, keep=False, only=Non
                 unreplayed.append((job, desc))
                 continue
             handle_failure(ctx, prop, job, u, res, violations, inconclusive, rec)
-        ctx.log("%-7s %s  %.1fs vars=%s proved=%d failed=%d reach=%d" % (rec["status"].upper(), job.name(), r["wall"], stats.get("variables"), n_ok, n_fail, n_reach))
+        ctx.log("%-7s %s%s  %.1fs vars=%s proved=%d failed=%d reach=%d" % (rec["status"].upper(), job.name(), "" if job.variant == "real" else " {" + job.variant + "}", r["wall"], stats.get("variables"), n_ok, n_fail, n_reach))
 
     with cf.ThreadPoolExecutor(NCPU) as ex:
         futs = [ex.submit(work, i) for i in order]
